@@ -1671,6 +1671,52 @@ class SaveLoadOracle(Observer):
 # ======================================================================================
 # C17 - construction / conversion: copying, aliasing (the clauses about later behaviour)
 # ======================================================================================
+class CreationOracle(Observer):
+    """creation routines (the per-call clause of C17, embedded in histories because the dtype gate and
+    the constant flag depend on the tracking switch in force): values, shape and dtype of the NumPy
+    namesake for the same explicit arguments; a detached tensor; the flag the rules give"""
+
+    def after(self, w, ev, out):
+        if ev["k"] != "create":
+            return
+        lc, w.last_create = w.last_create, None
+        fn = ev["fn"]
+        if out.status == "unexp":
+            w.violation("C17", "C17.creation", f"step {w.nstep}: mg.{fn} with arguments NumPy accepts raised {out.exc}: {out.msg}", tag=f"C17.creation/{fn}/raised")
+            return
+        if lc is None:
+            return
+        if out.status == "nofail":
+            w.violation("C17", "C17.creation", f"step {w.nstep}: mg.{fn} accepted a non-real dtype / constant=False on integers while tracking is on", tag=f"C17.creation/{fn}/not_rejected")
+            return
+        if out.status != "ok":
+            return
+        t, ref = lc["t"], lc["ref"]
+        lc["t"] = None
+        if not isinstance(t, Tensor):
+            w.violation("C17", "C17.creation", f"step {w.nstep}: mg.{fn} returned {type(t).__name__}", tag=f"C17.creation/{fn}/type")
+            return
+        d = t.data
+        if d.shape != ref.shape:
+            w.violation("C17", "C17.creation", f"step {w.nstep}: mg.{fn} gives shape {d.shape}, NumPy {ref.shape}", tag=f"C17.creation/{fn}/shape")
+            return
+        if d.dtype != ref.dtype:
+            w.violation("C17", "C17.creation", f"step {w.nstep}: mg.{fn} gives dtype {d.dtype}, NumPy {ref.dtype}", tag=f"C17.creation/{fn}/dtype")
+            return
+        if lc["values"] and not np.array_equal(d, ref, equal_nan=True):
+            w.violation("C17", "C17.creation", f"step {w.nstep}: mg.{fn} gives {d.tolist()!r:.120}, NumPy {ref.tolist()!r:.120}", tag=f"C17.creation/{fn}/value")
+            return
+        if t.creator is not None or t.base is not None or t.grad is not None:
+            w.violation("C17", "C17.creation", f"step {w.nstep}: the result of mg.{fn} is attached to a graph / holds a gradient", tag=f"C17.creation/{fn}/attached")
+            return
+        # (documented for the *_like routines: the flag is inferred from a tensor argument)
+        want = lc["constant"] if lc["constant"] is not None else ((d.dtype.kind != "f") or bool(lc.get("like_const")))
+        if bool(t.constant) is not bool(want):
+            w.violation("C17", "C17.creation", f"step {w.nstep}: mg.{fn} result has constant={t.constant}, the rules give {want}", tag=f"C17.creation/{fn}/constant")
+            return
+        w.probe("c17.creation_checked")
+
+
 class AliasOracle(Observer):
     """aliasing model confirmed by actual later writes: after the caller changes one of its arrays
     every tensor shows the new values iff the model says it shares that memory; conversion results
